@@ -202,6 +202,7 @@ structure HeadPts where
   midAt : Nat
   after : Bool
   acceptAfter : Bool  -- with `after`: the observed key is accepted, then Observation() is called again
+  slowRun : Bool      -- the head's CheckUpkeep stays pending while the next head is queued behind it
   stallMs : Int       -- virtual ms the observer stays parked inside the gated `Eligible` call (the model ignores it)
 
 def headOf (j : Json) : R HeadPts := do
@@ -214,7 +215,8 @@ def headOf (j : Json) : R HeadPts := do
   let aft ← asBool (fieldD j "after" (.bool false))
   let acc ← asBool (fieldD j "acceptAfter" (.bool false))
   let stall ← asInt (fieldD j "stallMs" (.num 0))
-  pure ⟨⟨strBytes block, active, srcErr, runErr, results⟩, midAt, aft, acc, stall⟩
+  let slow ← asBool (fieldD j "slowRun" (.bool false))
+  pure ⟨⟨strBytes block, active, srcErr, runErr, results⟩, midAt, aft, acc, slow, stall⟩
 
 /-- verdict on one Observation() call -/
 structure PointVerdict where
@@ -303,12 +305,27 @@ def handleObs (input impl : Json) : R Reply := do
   let raw ← rawCfg (← field input "cfg")
   let vs ← pts.mapM (handlePoint hps coordJ raw.minConfirmations)
   -- which Observation() calls the model expects: mid-head calls only when the gated `Eligible` call is reached
+  -- A head whose runner call is pending (`slowRun`, reached only if the registry answered with a non-empty
+  -- list) is observed while parked; the next head is queued behind it — `runHeadTasks` samples one head at a
+  -- time, so the queued head is sampled after the pending one has been staged and advanced: the model's
+  -- sequential `processHead` fold is unchanged, the observation points are at `stagerAt heads i`.
   let expected : List (Nat × String) :=
-    (hps.zipIdx.flatMap fun (h, i) =>
-      (if h.midAt ≥ 1 && headSampled h.head && decide (h.midAt ≤ h.head.results.length) then [(i, "mid")] else []) ++
-      (if h.after then [(i + 1, "after")] else []) ++
-      (if h.after && h.acceptAfter then [(i + 1, "after2")] else [])) ++
-    [(heads.length, "final"), (0, "successor")]
+    let rec go (hs : List HeadPts) (i : Nat) (queued : Bool) (n : Nat) : List (Nat × String) :=
+      match hs with
+      | [] => []
+      | h :: rest =>
+        let slow := h.slowRun && !queued && !h.head.srcErr && h.head.active != 0
+        if slow then
+          if rest.isEmpty then
+            [(i, "parked")] ++ (if h.after then [(i + 1, "after")] else []) ++
+              (if h.after && h.acceptAfter then [(i + 1, "after2")] else []) ++ go rest (i + 1) false n
+          else [(i, "parked"), (i, "queued")] ++ go rest (i + 1) true n
+        else
+          (if !queued && !h.slowRun && h.midAt ≥ 1 && headSampled h.head && decide (h.midAt ≤ h.head.results.length)
+            then [(i, "mid")] else []) ++
+          (if h.after then [(i + 1, "after")] else []) ++
+          (if h.after && h.acceptAfter then [(i + 1, "after2")] else []) ++ go rest (i + 1) false n
+    go hps 0 false heads.length ++ [(heads.length, "final"), (0, "successor")]
   let got ← pts.mapM fun pt => do pure ((← natF pt "n"), (← strF pt "phase"))
   let pointsOk := decide (expected = got)
   let coord ← coordOf coordJ (Json.mkObj []) raw.minConfirmations
